@@ -35,6 +35,7 @@ LEVEL_NOTE = (
     "tree violates C07 in six recorded ways (known_findings.jsonl, proposed_fixes/c07-*.diff); the check passes without them "
     "on the patched tree.")
 TECHNIQUE = "Lean 4 proof (induction over sites; Mathlib real analysis on regenerated code; IEEE special-value interpretation) + differential correspondence"
+NEEDS_BINARY = True
 LEAN_MODULES = ["Gv.Props.C07", "Gv.Props.C07Inv", "Gv.Props.C07InvGamma"]
 REQUIRED_THEOREMS = ["Gv.Props.C07." + n for n in [
     "countDiffs_symmetric", "countDiffsWithGaps_symmetric", "countMutations_symmetric",
@@ -257,7 +258,7 @@ PROBES = [
 _probe_cases = []
 
 
-def gen(rng, tier):
+def _gen_core(rng, tier):
     del _probe_cases[:]
     for name, args, _ in PROBES:
         c = Case("distmatrix", args, True, "probe-" + name)
@@ -386,3 +387,24 @@ def check(tier, seed):
     except (OSError, ValueError, KeyError):
         pass
     return rc
+
+
+# ---- command-line glue: `goalign compute distance` against the library call with the same options (`detdist`) ----
+def gen(rng, tier):
+    for c in _gen_core(rng, tier):
+        yield c
+    for _ in range(40 if tier == "quick" else 400):
+        n = rng.randint(2, 6)
+        L = rng.randint(3, 40)
+        base = [rng.choice("ACGT") for _ in range(L)]
+        rows = ",".join("s%d:%s" % (i, "".join(rng.choice("ACGT") if rng.random() < 0.2 else (rng.choice("-NRY") if rng.random() < 0.1 else b)
+                                              for b in base)) for i in range(n))
+        model = rng.choice(["pdist", "rawdist", "jc", "k2p", "f81", "f84", "tn93"])
+        gm = rng.choice(["0", "1", "2"]) if model in ("pdist", "rawdist") else "0"
+        ra = rng.choice(["0", "1"]) if model == "pdist" else "0"
+        alpha = rng.choice(["0", "0", "1/2", "2"]) if model not in ("pdist", "rawdist") else "0"
+        r = ("_", "_")
+        if rng.random() < 0.2 and n >= 3:
+            r = ("0:%d" % max(0, n // 2 - 1), "%d:%d" % (n // 2, n - 1))
+        yield Case("detdist", [rows, model, rng.choice(["0", "1"]), gm, ra, alpha, r[0], r[1]], True, "cli-compute-distance")
+
